@@ -535,6 +535,30 @@ def _leg_methods(case, add):
             lb = want if isinstance(want, tuple) else (want,)
             if not all(np.allclose(np.asarray(p_), np.asarray(q_), rtol=1e-12, atol=1e-14) for p_, q_ in zip(la, lb)):
                 add(f"methods|frozen-child|{s['k']}|value", f"{s['k']} whose child was frozen with NonTrainable: {m} differs from the unwrapped object")
+    # parameter accessors of the named families on a frozen distribution (non_trainable(dist)) and on unwrap(dist): same arrays
+    import flowjax.distributions as D
+    from flowjax.wrappers import non_trainable
+
+    a_, b_ = jnp.asarray([0.3, -0.4]), jnp.asarray([1.2, 0.7])
+    fams = {"Normal": (D.Normal(a_, b_), ("loc", "scale")), "LogNormal": (D.LogNormal(a_, b_), ("loc", "scale")), "Gumbel": (D.Gumbel(a_, b_), ("loc", "scale")),
+            "Cauchy": (D.Cauchy(a_, b_), ("loc", "scale")), "Laplace": (D.Laplace(a_, b_), ("loc", "scale")), "Logistic": (D.Logistic(a_, b_), ("loc", "scale")),
+            "StudentT": (D.StudentT(jnp.asarray([3.0, 5.0]), a_, b_), ("loc", "scale", "df")), "Uniform": (D.Uniform(a_, a_ + b_), ("minval", "maxval")),
+            "Exponential": (D.Exponential(b_), ("rate",)), "MultivariateNormal": (D.MultivariateNormal(a_, jnp.asarray([[2.0, 0.3], [0.3, 1.0]])), ("loc", "covariance"))}
+    for fname, (dist, accs) in fams.items():
+        frozen, plain = non_trainable(dist), unwrap(dist)
+        for acc in accs:
+            if not hasattr(dist, acc):
+                continue
+            tr += 1
+            want = np.asarray(getattr(plain, acc), float)
+            try:
+                got = getattr(frozen, acc)
+                got = np.asarray(got, float)
+            except Exception as e:
+                add(f"methods|accessor-frozen|{fname}|{acc}|raises", f"non_trainable({fname}(...)).{acc} raises {type(e).__name__}: {str(e)[:120]}; unwrap(...).{acc} = {want.tolist()}")
+                continue
+            if got.shape != want.shape or not np.allclose(got, want, rtol=1e-12, atol=0):
+                add(f"methods|accessor-frozen|{fname}|{acc}|value", f"non_trainable({fname}(...)).{acc} = {got.tolist()} but {want.tolist()} after unwrap")
     for name in ("Normal", "Coupling", "coupling_flow", "tri_spline_flow", "BNAF"):
         d = build_model(name, case["seed"])
         ud = unwrap(d)
